@@ -326,3 +326,233 @@ pub fn mutate(rng: &mut Rng, name: &str, ty: Ty, v: &V, n: usize, salt: i64) -> 
 pub fn indent(s: &str, pad: &str) -> String {
     s.lines().map(|l| format!("{pad}{l}\n")).collect()
 }
+
+// ------------------------------------------------------------------ aliasing and cycles
+// (after fix 0cb8741: one map of copies per SpawnTask / per channel read)
+
+pub const ALIAS_DECLS: &str = r#"type Two = {
+  p: array<int>
+  q: array<int>
+}
+type Node = {
+  v: int
+  next: array<Node>
+}
+"#;
+
+pub struct AliasCase {
+    pub src: String,
+    pub class: &'static str,
+    /// expected output lines: what the task observed (in order), then what the spawner observed
+    pub expected: Vec<String>,
+    /// `heapalias …` request whose answer must be the expected lines joined by `;` + " owned"
+    pub model: Option<String>,
+}
+
+fn alias_program(setup: &str, task_body: &str, n_task_shows: usize, main_after: &str, main_shows: &[String]) -> String {
+    let mut s = String::from(DECLS);
+    s.push_str(ALIAS_DECLS);
+    s.push_str("let out: channel<string> = channel()\nlet ack: channel<bool> = channel()\n");
+    s.push_str(setup);
+    s.push_str(&format!("task {{\n{}  ack.read()\n}}\n", indent(task_body, "  ")));
+    s.push_str(main_after);
+    for i in 0..n_task_shows {
+        s.push_str(&format!("let r{i} = out.read()\n"));
+    }
+    for i in 0..n_task_shows {
+        s.push_str(&format!("println(r{i})\n"));
+    }
+    for m in main_shows {
+        s.push_str(&format!("println({m})\n"));
+    }
+    s.push_str("ack.write(true)\n");
+    s
+}
+
+/// a value with aliasing or a cycle is captured by a task; the task mutates through one alias and
+/// observes through the other; the spawner does the same on its originals
+pub fn gen_alias_capture(rng: &mut Rng, i: usize) -> AliasCase {
+    let a = rng.range(0, 99);
+    let b = rng.range(0, 99);
+    let k = rng.range(100, 199);
+    let k2 = rng.range(200, 299);
+    match i % 6 {
+        0 => AliasCase {
+            class: "alias:two-variables",
+            src: alias_program(
+                &format!("let xs = [{a}, {b}]\nlet ys = xs\n"),
+                &format!("xs.push({k})\nlet s1 = show_arrint(ys)\nout.write(s1)\n"),
+                1,
+                &format!("ys.push({k2})\n"),
+                &["show_arrint(xs)".into()],
+            ),
+            expected: vec![format!("(A {a} {b} {k})"), format!("(A {a} {b} {k2})")],
+            model: Some(format!("heapalias &0=(A {a} {b}) &0 | T push 0 {k} ; T show 1 ; M push 1 {k2} ; M show 0")),
+        },
+        1 => AliasCase {
+            class: "alias:two-fields",
+            src: alias_program(
+                &format!("let xs = [{a}]\nlet t = Two(xs, xs)\n"),
+                &format!("t.p.push({k})\nlet s1 = show_arrint(t.q)\nout.write(s1)\n"),
+                1,
+                &format!("t.q.push({k2})\n"),
+                &["show_arrint(t.p)".into()],
+            ),
+            expected: vec![format!("(A {a} {k})"), format!("(A {a} {k2})")],
+            model: Some(format!("heapalias (S &0=(A {a}) &0) | T push 0.0 {k} ; T show 0.1 ; M push 0.1 {k2} ; M show 0.0")),
+        },
+        2 => AliasCase {
+            class: "alias:capture-and-field",
+            src: alias_program(
+                &format!("let xs = [{a}]\nlet t = Two(xs, [{b}])\n"),
+                &format!(
+                    "xs.push({k})\nlet s1 = show_arrint(t.p)\nout.write(s1)\nt.p.push({})\nlet s2 = show_arrint(xs)\nout.write(s2)\n",
+                    k + 1
+                ),
+                2,
+                &format!("xs.push({k2})\n"),
+                &["show_arrint(t.p)".into()],
+            ),
+            expected: vec![format!("(A {a} {k})"), format!("(A {a} {k} {})", k + 1), format!("(A {a} {k2})")],
+            model: Some(format!(
+                "heapalias &0=(A {a}) (S &0 (A {b})) | T push 0 {k} ; T show 1.0 ; T push 1.0 {} ; T show 0 ; M push 0 {k2} ; M show 1.0",
+                k + 1
+            )),
+        },
+        3 => AliasCase {
+            class: "cycle:self",
+            src: alias_program(
+                &format!("let n = Node({a}, [])\nn.next.push(n)\n"),
+                &format!(
+                    "n.v = {k}\nlet s1 = show_int(n.next[0].v)\nout.write(s1)\nn.next[0].next[0].v = {}\nlet s2 = show_int(n.v)\nout.write(s2)\n",
+                    k + 1
+                ),
+                2,
+                &format!("n.next[0].v = {k2}\n"),
+                &["show_int(n.v)".into()],
+            ),
+            expected: vec![format!("{k}"), format!("{}", k + 1), format!("{k2}")],
+            model: Some(format!(
+                "heapalias &0=(S {a} (A &0)) | T set 0 0 {k} ; T show 0.1.0.0 ; T set 0.1.0.1.0 0 {} ; T show 0.0 ; M set 0.1.0 0 {k2} ; M show 0.0",
+                k + 1
+            )),
+        },
+        4 => AliasCase {
+            class: "cycle:two-nodes",
+            src: alias_program(
+                &format!("let p = Node({a}, [])\nlet q = Node({b}, [p])\np.next.push(q)\n"),
+                &format!(
+                    "p.next[0].v = {k}\nlet s1 = show_int(p.next[0].next[0].next[0].v)\nout.write(s1)\nlet s2 = show_int(p.next[0].next[0].v)\nout.write(s2)\n"
+                ),
+                2,
+                &format!("q.v = {k2}\n"),
+                &["show_int(p.next[0].v)".into()],
+            ),
+            expected: vec![format!("{k}"), format!("{a}"), format!("{k2}")],
+            model: Some(format!(
+                "heapalias &0=(S {a} (A &1=(S {b} (A &0)))) | T set 0.1.0 0 {k} ; T show 0.1.0.1.0.1.0.0 ; T show 0.1.0.1.0.0 ; M set 0.1.0 0 {k2} ; M show 0.1.0.0"
+            )),
+        },
+        _ => AliasCase {
+            class: "alias:same-box-twice-in-array",
+            src: alias_program(
+                &format!("let bx = Box({a}, \"s\")\nlet arr = [bx, bx]\n"),
+                &format!("arr[0].v = {k}\nlet s1 = show_box(arr[1])\nout.write(s1)\n"),
+                1,
+                &format!("bx.v = {k2}\n"),
+                &["show_arrbox(arr)".into()],
+            ),
+            expected: vec![format!("(S {k} 's')"), format!("(A (S {k2} 's') (S {k2} 's'))")],
+            model: Some(format!("heapalias (A &0=(S {a} 's') &0) | T set 0.0 0 {k} ; T show 0.1 ; M set 0.0 0 {k2} ; M show 0")),
+        },
+    }
+}
+
+/// the same shapes sent through a channel (one `ChannelRead` = one fresh map); the sender keeps the value
+/// alive and untouched until the reader has it (hypothesis of C09's partial theorem)
+pub fn gen_alias_channel(rng: &mut Rng, i: usize) -> AliasCase {
+    let a = rng.range(0, 99);
+    let k = rng.range(100, 199);
+    let k2 = rng.range(200, 299);
+    let chan = |ty: &str, setup: &str, send: &str, task_body: &str, n: usize, main_after: &str, shows: &[String]| {
+        let mut s = String::from(DECLS);
+        s.push_str(ALIAS_DECLS);
+        s.push_str("let out: channel<string> = channel()\nlet ack: channel<bool> = channel()\nlet got: channel<bool> = channel()\n");
+        s.push_str(&format!("let c: channel<{ty}> = channel()\n"));
+        s.push_str(&format!("task {{\n{}  ack.read()\n}}\n", indent(task_body, "  ")));
+        s.push_str(setup);
+        s.push_str(send);
+        s.push_str("got.read()\n");
+        s.push_str(main_after);
+        for i in 0..n {
+            s.push_str(&format!("let r{i} = out.read()\n"));
+        }
+        for i in 0..n {
+            s.push_str(&format!("println(r{i})\n"));
+        }
+        for m in shows {
+            s.push_str(&format!("println({m})\n"));
+        }
+        s.push_str("ack.write(true)\n");
+        s
+    };
+    match i % 4 {
+        0 => AliasCase {
+            class: "chan:same-box-twice-in-array",
+            src: chan(
+                "array<Box>",
+                &format!("let bx = Box({a}, \"s\")\nlet arr = [bx, bx]\n"),
+                "c.write(arr)\n",
+                &format!("let x = c.read()\ngot.write(true)\nx[0].v = {k}\nlet s1 = show_box(x[1])\nout.write(s1)\n"),
+                1,
+                &format!("bx.v = {k2}\n"),
+                &["show_arrbox(arr)".into()],
+            ),
+            expected: vec![format!("(S {k} 's')"), format!("(A (S {k2} 's') (S {k2} 's'))")],
+            model: Some(format!("heapalias (A &0=(S {a} 's') &0) | T set 0.0 0 {k} ; T show 0.1 ; M set 0.0 0 {k2} ; M show 0")),
+        },
+        1 => AliasCase {
+            class: "chan:cycle-self",
+            src: chan(
+                "Node",
+                &format!("let n = Node({a}, [])\nn.next.push(n)\n"),
+                "c.write(n)\n",
+                &format!("let x = c.read()\ngot.write(true)\nx.v = {k}\nlet s1 = show_int(x.next[0].next[0].v)\nout.write(s1)\n"),
+                1,
+                &format!("n.next[0].v = {k2}\n"),
+                &["show_int(n.v)".into()],
+            ),
+            expected: vec![format!("{k}"), format!("{k2}")],
+            model: Some(format!("heapalias &0=(S {a} (A &0)) | T set 0 0 {k} ; T show 0.1.0.1.0.0 ; M set 0.1.0 0 {k2} ; M show 0.0")),
+        },
+        2 => AliasCase {
+            class: "chan:two-fields",
+            src: chan(
+                "Two",
+                &format!("let xs = [{a}]\nlet t = Two(xs, xs)\n"),
+                "c.write(t)\n",
+                &format!("let x = c.read()\ngot.write(true)\nx.p.push({k})\nlet s1 = show_arrint(x.q)\nout.write(s1)\n"),
+                1,
+                &format!("xs.push({k2})\n"),
+                &["show_arrint(t.q)".into()],
+            ),
+            expected: vec![format!("(A {a} {k})"), format!("(A {a} {k2})")],
+            model: Some(format!("heapalias (S &0=(A {a}) &0) | T push 0.0 {k} ; T show 0.1 ; M push 0.0 {k2} ; M show 0.1")),
+        },
+        // the same array written twice: two reads make two independent copies (a fresh map per read)
+        _ => AliasCase {
+            class: "chan:written-twice",
+            src: chan(
+                "array<int>",
+                &format!("let xs = [{a}]\n"),
+                "c.write(xs)\nc.write(xs)\n",
+                &format!("let u = c.read()\nlet w = c.read()\ngot.write(true)\nu.push({k})\nlet s1 = show_arrint(w)\nout.write(s1)\nlet s2 = show_arrint(u)\nout.write(s2)\n"),
+                2,
+                &format!("xs.push({k2})\n"),
+                &["show_arrint(xs)".into()],
+            ),
+            expected: vec![format!("(A {a})"), format!("(A {a} {k})"), format!("(A {a} {k2})")],
+            model: None,
+        },
+    }
+}
